@@ -12,7 +12,7 @@ from fhgen import *
 from petruth import RSP, NONVOL, PE2IDX
 
 RULE = ("synthesized PE programs (8+ functions: push / MSVC home-space saves / frame register with dynamic allocation / "
-        "mov-saves after the allocation / alloc-large both forms / chained cold regions with and without a prolog of "
+        "mov-saves after the allocation / alloc-large both forms / bodies longer than 256 and 512 bytes / chained cold regions with and without a prolog of "
         "their own / leaf functions without table entry) x call chains of depth 1..6 x every interruption point of the "
         "innermost frame (prolog, body, restore, epilog, ret/jmp) x fresh and warmed cache; plus arbitrary registers and "
         "stack contents at instruction boundaries in first-frame and caller mode; distinct = (shape, phase, next "
@@ -64,11 +64,19 @@ def generate(rng, tier):
         petruth_mod(s, prog, base, notext, rdata_ids)
         s.add("new U"); s.add("add U M")
         nsc = 25 if tier == "quick" else 80
-        for k in range(nsc):
+        # forced interruption points: in long functions, the boundaries just past offsets 0x100, 0x200, ... (the low
+        # byte of the offset is then smaller than the prolog's code offsets)
+        forced = []
+        for f in prog["funcs"]:
+            if getattr(f, "long", False):
+                bs = [b for b in petruth.boundaries(f) if b[0] == 0 and b[1] >= 0x100 and (b[1] & 0xff) < 0x28]
+                forced += [(f, b) for b in bs[:: max(1, len(bs) // 6)][:6]]
+        for k in range(nsc + len(forced)):
             top = 0x7ffe0000 + 0x1000 * rng.below(16)
             if rng.chance(1, 8):
                 top += 0x7f0000000000
-            sc = petruth.make_scenario(rng, prog, base, top, rng.range(1, 6))
+            sc = petruth.make_scenario(rng, prog, base, top, rng.range(1, 6) if k < nsc else rng.range(1, 3),
+                                       inner=(forced[k - nsc] if k >= nsc else None))
             mid = "S%d" % k
             s.mem(mid, sorted(sc["mem"].items()))
             inner = sc["frames"][0]
